@@ -251,7 +251,7 @@ def run(tier, t0):
     common.pmap_merge(work_deep, dtasks, acc)
     rule = (f'every (face, segment, S) for resolutions 0..{R} (exhaustive), then resolutions {R + 1}..30 x 60 segments x digit '
             f'patterns G1[{level}] (see vf/seeds.py); a state is non-trivial when its id is distinct from all others of its task and '
-            'encode, decode and re-encode all agreed with the reference codec; plus 4 out-of-range S per (face, segment, r>=2)')
+            'encode, decode and re-encode all agreed with the reference codec; plus 4 out-of-range S per (face, segment, r>=2); every exhaustive level is also enumerated through the public enumerators (cell_to_children from the world cell and from every cell of levels 0, 1, 2; uncompact of the world cell, of the faces and of levels 0..2; children level by level) and must give the same id set')
     return common.finish(PID, LEVEL, tier, acc, t0, rule, [
         'reference codec vf/refmodel.py written from the layout comment of a5/core/serialization.py (shares no code)',
         'public segment -> id slot relabelling per face is read off resolution-1 ids (must be a bijection) and then required at every resolution',
